@@ -156,6 +156,18 @@ def run(rep, tier, seed):
                     if not np.allclose(J2[np.ix_(r2, range(J2.shape[1]))], J0[np.ix_(r0, cmap)], equal_nan=True, **tol):
                         fails.append((case, "Jacobian of the variant is not the permuted copy of the original"))
         # ---- solver results per named variable (autonomous AE models: Newton; DAE: trapezoid, Rodas)
+    # ---- the same symbolic equations made numerical for another variable order (the order of the Vars handed to made_numerical
+    #      is the declaration order the addresses follow): a permuted copy of what a declaration from scratch in that order gives
+    import tempfile as _tf, shutil as _sh
+    _htmp = _tf.mkdtemp(prefix="c15h_")
+    try:
+        hf, nh = pipeline.regen_histories(models[:len(lang.corpus()) + (4 if tier == "quick" else 60)], rng, _htmp, "c15h", what=("F", "J", "M"),
+                                          with_module=(tier != "quick"))
+    finally:
+        _sh.rmtree(_htmp, ignore_errors=True)
+    stats["relayout_histories"] = nh
+    for case_h, msg in hf[:3]:
+        fails.append((case_h, "variable order changed on kept equations: " + msg))
     # dedicated solver comparison on zoo-like models
     from Solverz import nr_method, Rodas, implicit_trapezoid, Opt, made_numerical
     solver_models = [m for m in models if m.kind in ("AE", "DAE")][:6 if tier == "quick" else 40]
